@@ -28,11 +28,16 @@ class Contract(object):
                  raises=None, must_raise=(), loops=None, locals=None, serves=(), ghost=None,
                  implicit='check', trusted=False, inline=False, harness=None, note='',
                  cases=None, on_raise=None, pure=False, lemma=False, body=None,
-                 interface_of=None, exc_ensures=None, checks=None, variant='', nullable=(), fresh_result=False, counts=(), allocates=()):
+                 interface_of=None, exc_ensures=None, checks=None, variant='', nullable=(), fresh_result=False, counts=(), allocates=(), assume_input=False):
         self.target = target
         self.params = OrderedDict(params)
         self.returns = returns
-        self.requires = list(requires)
+        # a clause written '@input <expr>' is a well-formedness condition on the INPUT DATA (template / values) that no state invariant
+        # of the caller can establish (e.g. "a marker operator finds a zero bit left in the current bitmap"): the callee is verified
+        # under it like under any precondition; a caller whose contract sets `assume_input` may assume it at the call instead of
+        # proving it (each such clause is listed in the evidence as an assumption) -- real code raises there (ill-formed message)
+        self.input_requires = [r[len('@input '):].strip() for r in requires if r.startswith('@input ')]
+        self.requires = [r[len('@input '):].strip() if r.startswith('@input ') else r for r in requires]
         self.ensures = list(ensures)
         self.modifies = list(modifies)
         # raises: {ExcClass: condition-in-pre-state or None}: the only classes that may escape;
@@ -63,6 +68,7 @@ class Contract(object):
         # counts: [(parameter name, ghost name)]: the integer ghost of that object counts the entries into this function (definitional:
         # incremented when the body is entered; the contract states `== old + 1` and lists the ghost in `modifies`)
         self.counts = list(counts)
+        self.assume_input = assume_input
         # allocates: location specs, resolved in the POST state of a call, of objects the callee allocates and initialises (fields of a
         # fresh object reachable through a modified field); at a call site they are havocked after the `modifies` havoc so that the
         # `ensures` can describe them.  Writes to fresh objects need no permission, so the callee's own frame check ignores this list.
